@@ -314,23 +314,7 @@ def run(repo, res, tier):
         return frozenset(kw.items())
 
     INV = {(F(e2=1, s2=-1), False), (F(e1=1, s1=-1), False)}  # start <= end of either interval: always true
-    fn = iv.methods["contains"]
-    p = fn.args.args[1].arg
-    forms = closed_forms(fn, p)
-    want_num = {(F(x=1, s1=-1), False), (F(e1=1, x=-1), False)}
-    want_int = {(F(s2=1, s1=-1), False), (F(e1=1, e2=-1), False)}
-    shown = [t for _s, t in forms]
-    res.check("CLOSED", "Interval.contains(number): start <= x <= end", any(s is not None and s - INV == want_num for s, _t in forms), mod, fn, "Interval.contains number branch %s" % shown, "number containment is not the closed interval test", qualname="Interval.contains")
-    res.check("CLOSED", "Interval.contains(interval): start <= o.start and o.end <= end", any(s is not None and s - INV == want_int for s, _t in forms), mod, fn, "Interval.contains interval branch %s" % shown, "interval containment is not containment of both end points in the closed interval", qualname="Interval.contains")
-    fn = iv.methods["__contains__"]
-    rets = [n for n in walk_no_nested(fn) if isinstance(n, ast.Return)]
-    res.check("CLOSED", "Interval.__contains__ delegates to contains", len(rets) == 1 and C(rets[0].value, fn) == "self.contains(%s)" % fn.args.args[1].arg, mod, fn, "Interval.__contains__", "`in` and contains() disagree", qualname="Interval.__contains__")
-    fn = iv.methods["overlaps"]
-    p = fn.args.args[1].arg
-    forms = closed_forms(fn, p)
-    want_ov = {(F(e1=1, s2=-1), False), (F(e2=1, s1=-1), False)}
-    ok = len(forms) == 1 and forms[0][0] is not None and forms[0][0] - INV == want_ov
-    res.check("CLOSED", "Interval.overlaps: end >= o.start and o.end >= start (closed)", ok, mod, fn, "Interval.overlaps %s" % [t for _s, t in forms], "intervals that share only an end point (or overlap) are not reported as overlapping, or disjoint ones are", qualname="Interval.overlaps")
+    # contains / __contains__ / overlaps are decided on order cases by evaluation (below, after the helpers)
     # ------------------------------------------------------------- IMAGE  (abstract evaluation, sa/strdom.py)
     # The arithmetic methods are evaluated on an interval whose ends are atoms; the result must be a construction
     # through the class with the expected terms as arguments.  Helpers, lambdas, locals, unpacking, conditional
@@ -449,6 +433,46 @@ def run(repo, res, tier):
         except Undecided as x:
             raise AnalysisError("Interval.intersection [%s]: %s" % (label, x))
         res.check("CLOSED", "Interval.intersection [%s] = [max(starts), min(ends)] unless disjoint" % label, bad is None, mod, fn, "Interval.intersection [%s] %s" % (label, bad), "the intersection is not exactly the set intersection", qualname="Interval.intersection")
+
+    # ------------------------------------------------------------- CLOSED: contains / in / overlaps (abstract evaluation)
+    # a number against [s1, e1] in every order case; an interval [s2, e2] in every order case of the four ends
+    xs = Sym("x", "num")
+    NUM_CASES = (("below the start", -1, False), ("on the start", 0, True), ("inside", 2, True), ("on the end", 4, True), ("beyond the end", 5, False))
+    for mn in ("contains", "__contains__"):
+        fn = iv.methods.get(mn)
+        if fn is None:
+            raise AnalysisError("Interval.%s missing" % mn)
+        for label, xv, want in NUM_CASES:
+            vals = {"s1": 0, "e1": 4, "x": xv}
+            bad = None
+            try:
+                r, ev_ = evaluate(iv, mn, [xs], fresh(iv, s1, e1), vals=vals)
+                got = ev_.truth(r, fn)
+                if got is not want:
+                    bad = "answers %s for x = %d and [0, 4]" % (got, xv)
+            except _Raise as x:
+                bad = "raises %s" % x.what
+            except Undecided as x:
+                raise AnalysisError("Interval.%s [number %s]: %s" % (mn, label, x))
+            res.check("CLOSED", "Interval.%s(number) [%s]: start <= x <= end" % (mn, label), bad is None, mod, fn, "Interval.%s [number %s] %s" % (mn, label, bad), "number containment is not the closed interval test", qualname="Interval.%s" % mn)
+    INT_CASES = (("other inside", (0, 6, 2, 4)), ("equal", (1, 3, 1, 3)), ("sharing the start", (0, 6, 0, 3)), ("sharing the end", (0, 6, 3, 6)), ("sticking out on the right", (0, 4, 2, 5)), ("sticking out on the left", (2, 6, 1, 4)), ("other around", (2, 4, 0, 6)), ("disjoint", (0, 2, 3, 5)), ("touching", (0, 3, 3, 5)), ("disjoint, other to the left", (3, 5, 0, 2)), ("touching, other to the left", (3, 5, 0, 3)), ("a point inside", (0, 4, 2, 2)), ("a point on the start", (0, 4, 0, 0)), ("a point on the end", (0, 4, 4, 4)))
+    for mn, spec, msg in (("contains", lambda v: v[0] <= v[2] and v[3] <= v[1], "interval containment is not containment of both end points in the closed interval"), ("overlaps", lambda v: v[1] >= v[2] and v[3] >= v[0], "intervals that share only an end point (or overlap) are not reported as overlapping, or disjoint ones are")):
+        fn = iv.methods.get(mn)
+        if fn is None:
+            raise AnalysisError("Interval.%s missing" % mn)
+        for label, v in INT_CASES:
+            vals = dict(zip(("s1", "e1", "s2", "e2"), v))
+            bad = None
+            try:
+                r, ev_ = evaluate(iv, mn, [fresh(iv, s2, e2)], fresh(iv, s1, e1), vals=vals)
+                got = ev_.truth(r, fn)
+                if got is not spec(v):
+                    bad = "answers %s for [%d, %d] and [%d, %d]" % ((got,) + v)
+            except _Raise as x:
+                bad = "raises %s" % x.what
+            except Undecided as x:
+                raise AnalysisError("Interval.%s [interval %s]: %s" % (mn, label, x))
+            res.check("CLOSED", "Interval.%s(interval) [%s]" % (mn, label), bad is None, mod, fn, "Interval.%s [interval %s] %s" % (mn, label, bad), msg, qualname="Interval.%s" % mn)
 
     # ------------------------------------------------------------- REJECT  (abstract evaluation)
     ORDERS = [("both positive", 2, 1), ("positive / zero", 1, 0), ("positive / negative", 1, -1), ("zero / negative", 0, -1), ("both negative", -1, -2)]  # (label, larger, smaller)
